@@ -13,8 +13,45 @@ type (
 	WaitGroup = stdsync.WaitGroup
 	Locker    = stdsync.Locker
 	Map       = stdsync.Map
-	Pool      = stdsync.Pool
 )
+
+// Pool behaves like sync.Pool within one execution (one synctest bubble) and never hands an object
+// from an earlier execution to a later one: channels and timers created inside a bubble must not
+// be used outside it, and executions must not influence each other.
+type Pool struct {
+	New func() any
+
+	mu    stdsync.Mutex
+	epoch uint64
+	items []any
+}
+
+func (p *Pool) Get() any {
+	p.mu.Lock()
+	if e := verifsched.Epoch(); e != p.epoch {
+		p.epoch, p.items = e, nil
+	}
+	if n := len(p.items); n > 0 {
+		x := p.items[n-1]
+		p.items = p.items[:n-1]
+		p.mu.Unlock()
+		return x
+	}
+	p.mu.Unlock()
+	if p.New != nil {
+		return p.New()
+	}
+	return nil
+}
+
+func (p *Pool) Put(x any) {
+	p.mu.Lock()
+	if e := verifsched.Epoch(); e != p.epoch {
+		p.epoch, p.items = e, nil
+	}
+	p.items = append(p.items, x)
+	p.mu.Unlock()
+}
 
 type Mutex struct {
 	native stdsync.Mutex
